@@ -149,7 +149,7 @@ class SplitRowsOp(BaseOp):
                 df, event_params['onset_source'])
             add_events[self.anchor_column] = event
             self._add_durations(df, add_events, event_params['duration'])
-            if len(event_params['copy_columns']) > 0:
+            if len(event_params.get('copy_columns', [])) > 0:
                 for column in event_params['copy_columns']:
                     add_events[column] = df[column]
 
